@@ -193,9 +193,9 @@ def generate_jaqal_value(val):
         or isinstance(val, AnnotatedValue)
     ):
         return val.name
-    # Numbers of other types (e.g. numpy scalars) are written like the
-    # builtin number they are equal to.
-    if not isinstance(val, (int, float)):
+    # Numbers of other types (e.g. numpy scalars, or bool, whose text is
+    # a word) are written like the builtin number they are equal to.
+    if isinstance(val, bool) or not isinstance(val, (int, float)):
         if isinstance(val, Integral):
             val = int(val)
         elif isinstance(val, Real):
